@@ -25,6 +25,19 @@ from harness import lib_c05 as L
 FINDINGS_DIR = core.VERIF / "findings"
 
 
+MAX_BROKEN = 40
+_suppressed = [0]
+
+
+def brk(ck, kind, name, detail=""):
+    """ck.broken, capped: at most one item per name for 'not observable' notes, MAX_BROKEN in all."""
+    same = sum(1 for b in ck.broken_items if b["name"] == name)
+    if (same and kind != "correspondence") or (same and "observ" in name) or len(ck.broken_items) >= MAX_BROKEN:
+        _suppressed[0] += 1
+        return
+    ck.broken(kind, name, detail)
+
+
 # ------------------------------------------------------------------------------- the oracle
 def _present_vars(call):
     out = []
@@ -42,7 +55,6 @@ def judge(op: L.Op, call, sp=None):
 
 
 def _judge(op: L.Op, call, sp=None):
-    cls, _ = L.real(op)
     if sp is None:
         sp = L.run_spox(op, call)
     info = {"spox": {"raised": sp["raised"], "msg": sp.get("msg"), "types": sp["types"]}}
@@ -59,7 +71,7 @@ def _judge(op: L.Op, call, sp=None):
     outs = [L.oracle_run(op, call, False), L.oracle_run(op, call, True)]
     info["onnx"] = outs
     raised = sp["raised"] is not None
-    patched = L.is_patched(cls)
+    patched = L.is_supplemented(op)
     info["class"] = ("rej" if all(o["reject"] for o in outs) else "acc" if not any(o["reject"] for o in outs) else "mixed") + (
         "/raise" if raised else "/ok")
     if patched:
@@ -172,11 +184,19 @@ def out_keys(cls, call):
 
 
 def correspond_case(ck, op, call, sp, ans, stats):
+    try:
+        _correspond_case(ck, op, call, sp, ans, stats)
+    except Exception as e:  # noqa: BLE001  (an internal we read has changed: report, never crash)
+        stats["not_observable"] += 1
+        brk(ck, "correspondence", "singleton/construct not observable", f"{type(e).__name__}: {e}"[:300])
+
+
+def _correspond_case(ck, op, call, sp, ans, stats):
     """Compare the model's answer `ans` with what the real constructor did (`sp`)."""
-    cls, _ = L.real(op)
+    cls = sp.get("node_cls") or L.node_class(op)
     name = f"{op.key}"
     if "error" in ans:
-        ck.broken("correspondence", "driver:" + name, ans["error"])
+        brk(ck, "correspondence", "driver:" + name, ans["error"])
         return
     d: list[str] = []
     if not ans["wf"]:
@@ -231,7 +251,7 @@ def correspond_case(ck, op, call, sp, ans, stats):
             d.append(f"oracle model could not be built: {type(e).__name__}: {e}")
     if d:
         stats["mismatches"] += 1
-        ck.broken("correspondence", f"singleton/construct vs model: {name}", "; ".join(d)[:1400] + " | call=" + json.dumps(call)[:600])
+        brk(ck, "correspondence", f"singleton/construct vs model: {name}", "; ".join(d)[:1400] + " | call=" + json.dumps(call)[:600])
 
 
 def kind_cases(rng, ops, n):
@@ -246,7 +266,9 @@ def kind_cases(rng, ops, n):
     cand = [o for o in ops if not o.shared_with]
     for _ in range(n):
         op = rng.choice(cand)
-        cls, _ = L.real(op)
+        cls = L.node_class(op)
+        if cls is None:
+            raise LookupError(f"node class of {op.key} not found")
         fields = dataclasses.fields(cls.Inputs)
         if not fields:
             continue
@@ -304,7 +326,11 @@ def run(ck: core.Check):
         op = by_key.get(case["op_key"])
         if op is None:
             continue
-        k, what, _ = judge(op, case["call"])
+        try:
+            k, what, _ = judge(op, case["call"])
+        except Exception as e:  # noqa: BLE001
+            brk(ck, "harness", "a known-finding witness could not be replayed", f"{f.name}: {type(e).__name__}: {e}"[:300])
+            continue
         if k is not None:
             ck.failure(k, what, case)
 
@@ -313,60 +339,76 @@ def run(ck: core.Check):
     for op in ops:
         for _ in range(_budget(ck, op)):
             work.append(op)
+    def one_case(op, reqs, pending):
+        call = L.gen_call(rng, op)
+        if "skip" in call:
+            per_op[op.key]["skipped"] += 1
+            stats["skipped:" + call["skip"]] += 1
+            return
+        families[call["family"]] += 1
+        sp = L.run_spox(op, call)
+        key, what, info = judge(op, call, sp)
+        per_op[op.key][info["class"]] += 1
+        ck.count((op.key, info["class"], call["family"], len(call["attrs"]), tuple(type(a).__name__ for a in call["args"])))
+        if key is not None:
+            if not any(f["key"] == key for f in ck.failures) and not any(h["key"] == key for h in ck.known_hits):
+                call = shrink(op, call, key)
+            ck.failure(key, what, {"op_key": op.key, "call": call})
+        else:
+            ck.sample({"op": op.key, "call": call, "verdict": info["class"]}, limit=4)
+        for oe in sp.get("obs_errors", []):
+            brk(ck, "correspondence", "not observable: " + oe.split(":")[0], oe)
+        try:
+            req = L.model_request(op, call, sp)
+        except Exception as e:  # noqa: BLE001
+            stats["not_observable"] += 1
+            brk(ck, "correspondence", "constructor call not observable (model request)", f"{type(e).__name__}: {e}"[:300])
+            return
+        if req is None:
+            stats["no_node_observed"] += 1
+            if sp["raised"] not in ("TypeError", "AssertionError", "ValueError"):
+                brk(ck, "correspondence", "no node object observed for a call", f"e.g. {op.key}: {sp['raised']}: {sp.get('msg')}"[:300])
+            return
+        reqs.append(req)
+        pending.append((op, call, sp))
+
     rng.shuffle(work)  # a chunk mixes operators; order is still a function of the seed
     CH = 3000
     sent = 0
     for lo in range(0, len(work), CH):
         reqs, pending = [], []
         for op in work[lo:lo + CH]:
-            call = L.gen_call(rng, op)
-            if "skip" in call:
-                per_op[op.key]["skipped"] += 1
-                stats["skipped:" + call["skip"]] += 1
-                continue
-            families[call["family"]] += 1
-            sp = L.run_spox(op, call)
-            key, what, info = judge(op, call, sp)
-            per_op[op.key][info["class"]] += 1
-            ck.count((op.key, info["class"], call["family"], len(call["attrs"]), tuple(type(a).__name__ for a in call["args"])))
-            if key is not None:
-                if not any(f["key"] == key for f in ck.failures) and not any(h["key"] == key for h in ck.known_hits):
-                    call = shrink(op, call, key)
-                ck.failure(key, what, {"op_key": op.key, "call": call})
-            else:
-                ck.sample({"op": op.key, "call": call, "verdict": info["class"]}, limit=4)
-            req = L.model_request(op, call, sp)
-            if req is None:
-                stats["no_node_observed"] += 1
-                if sp["raised"] not in ("TypeError", "AssertionError", "ValueError"):
-                    ck.broken("correspondence", f"no node observed: {op.key}", f"{sp['raised']}: {sp.get('msg')}")
-                continue
-            sp.pop("node_obj", None)
-            sp.pop("vars_obj", None)
-            reqs.append(req)
-            pending.append((op, call, sp))
+            try:
+                one_case(op, reqs, pending)
+            except Exception as e:  # noqa: BLE001  (never crash the sweep; the verdicts of other cases stand)
+                stats["case_errors"] += 1
+                brk(ck, "harness", "a generated call could not be run", f"e.g. {op.key}: {type(e).__name__}: {e}"[:300])
         answers = ck.driver().ask_many("C05", reqs) if reqs else []
         sent += len(reqs)
         if len(answers) != len(reqs):
-            ck.broken("correspondence", "driver", f"{len(answers)} answers for {len(reqs)} requests")
+            brk(ck, "correspondence", "driver", f"{len(answers)} answers for {len(reqs)} requests")
         for (op, call, sp), ans in zip(pending, answers):
             correspond_case(ck, op, call, sp, ans, stats)
         if ck.thorough and (lo // CH) % 10 == 9:
             ck.log(f"... {lo + CH} calls")
-        if len(ck.broken_items) > 60 and len(ck.failures) >= 5:
+        if len(ck.broken_items) >= MAX_BROKEN and len(ck.failures) >= 5:
             ck.log("many mismatches and failures already - stopping the sweep early")
             break
     ck.log(f"{len(work)} calls generated, {sent} sent to the model")
 
     # 2. kind checks of Inputs(...)
-    kc = kind_cases(rng, ops, ck.pick(400, 4000))
+    try:
+        kc = kind_cases(rng, ops, ck.pick(400, 4000))
+    except Exception as e:  # noqa: BLE001
+        kc = []
+        brk(ck, "correspondence", "Inputs(...) kind checks not observable", f"{type(e).__name__}: {e}"[:300])
     kans = ck.driver().ask_many("C05", [r for _, r, _ in kc]) if kc else []
     for (op, req, ok), ans in zip(kc, kans):
         stats["kind_cases"] += 1
         stats["kind_rejected"] += 0 if ok else 1
         if "error" in ans or ans["kinds_ok"] != ok:
             stats["mismatches"] += 1
-            ck.broken("correspondence", f"kind check: {op.key}", f"real Inputs(...) {'accepted' if ok else 'raised TypeError'}; model {ans}"[:600] + f" args={req['args']}")
+            brk(ck, "correspondence", f"kind check: {op.key}", f"real Inputs(...) {'accepted' if ok else 'raised TypeError'}; model {ans}"[:600] + f" args={req['args']}")
 
     # ------------------------------------------------------------------ evidence
     totals = collections.Counter()
@@ -381,7 +423,7 @@ def run(ck: core.Check):
         "calls": len(work),
         "verdict_totals": dict(totals),
         "families": dict(families),
-        "correspondence": dict(stats),
+        "correspondence": dict(stats, mismatch_reports_suppressed=_suppressed[0]),
         "operators_without_an_accepted_call": starved,
         "operators_never_rejected": never_rej,
         "per_operator": {k: " ".join(f"{a}={n}" for a, n in sorted(v.items())) for k, v in sorted(per_op.items()) if not by_key[k].shared_with},
